@@ -292,13 +292,24 @@ fn dynamic(s: &mut Dstate) -> Result<(Huff, Huff), Stop> {
         cl[o] = s.b.bits(3)? as u8;
     }
     let clcode = construct(&cl);
-    // zlib: the code-length code must be complete (no single-code exception for CODES)
-    if clcode.left != 0 {
+    // zlib: the code-length code must be complete (no single-code exception for CODES) ...
+    if clcode.left != 0 && clcode.nonzero != 0 {
         return Err(Stop::Err(ErrKind::BadCodeLengthsSet));
+    }
+    if s.opts.strict && clcode.nonzero == 0 {
+        return Err(Stop::Err(ErrKind::StrictIncomplete));
     }
     let mut lengths = vec![0u8; nlen + ndist];
     let mut idx = 0;
     while idx < nlen + ndist {
+        // ... except that a code-length code without any symbol passes zlib's table builder; every
+        // code length then reads as 0 from one bit, and the missing end-of-block code is reported later
+        if clcode.nonzero == 0 {
+            let _ = s.b.bit()?;
+            lengths[idx] = 0;
+            idx += 1;
+            continue;
+        }
         let sym = match decode(&mut s.b, &clcode)? {
             Dec::Sym(x) => x as usize,
             Dec::Invalid => return Err(Stop::Err(ErrKind::BadCodeLengthsSet)),
